@@ -1,4 +1,5 @@
 """C10 MTBDD arithmetic — terminal/base cases of every operator (E-TABLE) ..."""
+import elin
 import ector
 import ecof
 import eeval
@@ -69,4 +70,10 @@ def run(ctx):
                 "edge; ZBDD: (tautology(level + 1), Empty) as the first node of its chain); the default not_var is not(var).")
     n = ector.run(ctx, F, only=("mtbdd",))
     ctx.floor("E-TABLE.ctor", "interpreted constructor bodies", n, 3)
+    ctx.explain("E-LIN.mint: inventory of the places in the two manager crates that build an owned Edge value out of a raw id / "
+                "pointer (invisible to the drop-based rule): the copying sites (clone_edge*, DynamicTerminalManager::get_edge, "
+                "the dynamic terminal iterator) have a reference-count increment or a fresh count on every path to the "
+                "creation; the remaining sites are the reviewed raw constructors and ownership transfers; a new site is reported.")
+    n = elin.check_mint(ctx, F)
+    ctx.floor("E-LIN.mint", "edge-creating functions inventoried", n, 22)
     ctx.not_decided = "non-overflow arithmetic of the terminal types, Div rounding, float behaviour"
